@@ -2,6 +2,7 @@
 C03 — IR -> proto -> IR preserves the model; serialization has no side effects (model `IrVerif.Scope`).
 -/
 import IrVerif.Lemmas.ScopeIdem
+import IrVerif.Lemmas.ScopeReplDeser
 import IrVerif.Props.C17
 namespace IrVerif.Scope
 
@@ -255,6 +256,39 @@ theorem C03_roundtrip (w : World) (h : Serializable w) :
       serialize w = .ok (w1, p) ∧ deserialize p = .ok D ∧ Iso w D σ ∧ Consistent D := by
   obtain ⟨p, ws, D, σ, hp, hdes, hiso⟩ := roundtrip_core w h
   exact ⟨⟨w.st.writes ws, w.root⟩, p, D, σ, by simp only [serialize, hp], hdes, hiso, C17_consistent p _ hdes⟩
+
+/-- the round trip relation for reloadable models: `D` is `w` up to the renaming `σ` of the values the
+    model introduces (`(replG …).new`: graph inputs, initializers, named and live empty-named node outputs,
+    placeholders, unproduced graph outputs, of every nested graph): same tree, `σ` injective, names kept;
+    the values the proto carries information for (`emitG`: inputs, initializers, named node outputs, graph
+    outputs) keep their serializable type / shape / documentation, initializers their tensor payload. -/
+structure IsoR (w D : World) (σ : Nat → Nat) : Prop where
+  tree : TreeIsoG w.st.vals σ w.root D.root
+  inj : ∀ a ∈ (replG w.st.vals [] w.root).new, ∀ b ∈ (replG w.st.vals [] w.root).new, σ a = σ b → a = b
+  names : ∀ v ∈ (replG w.st.vals [] w.root).new, (D.st.vals (σ v)).name = (w.st.vals v).name
+  infos : ∀ v ∈ emitG w.st.vals w.root, (D.st.vals (σ v)).info = (w.st.vals v).info.emit
+  consts : ∀ kv ∈ allInitsG w.root, ∀ t, (w.st.vals kv.2).const = some t →
+    ∃ t', (D.st.vals (σ kv.2)).const = some t' ∧ (D.st.tens t').name = some kv.1 ∧ D.st.tdata t' = w.st.tdata t
+
+/-- **C03_roundtrip_reloadable**: the round trip for every `Reloadable` model — the hypothesis is the
+    certificate `replG` (every reference resolves, innermost scope first, to the value it refers to, or
+    refers to a value introduced at that point; every value is introduced once).  It admits what
+    `Serializable` excludes: names shadowed in nested scopes, duplicate graph-input names, values that are
+    used but defined nowhere (they come back as placeholder values), graph outputs nothing produces.
+    Every model the deserializer returns is `Reloadable` (`deserialize_reloadable`). -/
+theorem C03_roundtrip_reloadable (w : World) (h : Reloadable w) :
+    ∃ (w1 : World) (p : GraphP) (D : World) (σ : Nat → Nat),
+      serialize w = .ok (w1, p) ∧ deserialize p = .ok D ∧ IsoR w D σ ∧ Consistent D := by
+  obtain ⟨p, ws, D, B, hp, hD, hrs, hk, ht, hio, hco⟩ := reloadable_roundtrip w h
+  refine ⟨⟨w.st.writes ws, w.root⟩, p, D, sig B, by simp only [serialize, hp], hD, ?_, C17_consistent p _ hD⟩
+  exact ⟨TreeRelG.iso _ B _ _ ht,
+    fun a ha b hb he => hrs.sig_inj (hk ▸ ha) (hk ▸ hb) he,
+    fun v hv => hrs.sig_name (hk ▸ hv),
+    fun v hv => (hio v hv).2,
+    fun kv hkv t htc => by
+      obtain ⟨_, _, hc⟩ := hco kv hkv
+      obtain ⟨t', h1, _, h3, h4⟩ := hc t htc
+      exact ⟨t', h1, h3, h4⟩⟩
 
 /-! ### non-vacuity -/
 
